@@ -20,7 +20,7 @@ type fixedCase struct {
 }
 
 func buildFixed(c fixedCase) *scenario {
-	w := &world{logs: map[string][]entry{}, head: map[string]int{}, base: map[string]int{}, byTag: map[int]entry{}, date: 1000}
+	w := &world{logs: map[string][]entry{}, head: map[string]int{}, pub: map[string]int{}, base: map[string]int{}, byTag: map[int]entry{}, date: 1000}
 	sc := &scenario{w: w, classes: map[string]bool{}}
 	for seq, es := range c.logs {
 		w.base[seq], w.head[seq] = 0, 0
